@@ -787,7 +787,7 @@ impl<'a> Interp<'a> {
                 if tys.len() != fs.len() {
                     return Err(Stop::Unsupported("to_data: constructor arity"));
                 }
-                D::C(*c as u64, fs.iter().zip(&tys).map(|(x, t)| self.to_data(x, t)).collect::<Result<_, _>>()?)
+                D::C(self.m.adts[*a].tag(*c), fs.iter().zip(&tys).map(|(x, t)| self.to_data(x, t)).collect::<Result<_, _>>()?)
             }
             _ => return Err(Stop::Unsupported("to_data: value / type mismatch")),
         })
@@ -818,10 +818,7 @@ impl<'a> Interp<'a> {
             (D::C(1, fs), Ty::Opt(_)) if fs.is_empty() => V::Con(OPT, 1, vec![]),
             (D::C(tag, fs), Ty::Adt(a, targs)) => {
                 let decl = &self.m.adts[*a];
-                let c = usize::try_from(*tag).ok()?;
-                if c >= decl.ctors.len() {
-                    return None;
-                }
+                let c = decl.ctor_of_tag(*tag)?;
                 let tys = decl.field_tys(c, targs);
                 if tys.len() != fs.len() {
                     return None;
